@@ -8,6 +8,7 @@ import Proofs.LeftQuirk
 import Proofs.LeftSubsume
 import Proofs.LeftReveal
 import Proofs.LeftRevealB
+import Proofs.LeftBoth
 import Proofs.WellFormed
 /-! C08 — Chart-state scoring equals left-to-right scoring for every derivation.
 
@@ -259,6 +260,44 @@ theorem reveal_before_whole_minus_parts (a : Arpa) (wf : WellFormed a) (hp : Con
   obtain ⟨L₂, G₂⟩ := derivation_frag a (build a) H R r₂ (ValidWords.append_right hv)
   obtain ⟨L, G⟩ := derivation_frag a (build a) H R r (by rw [hy]; exact hv)
   obtain ⟨L', c', _, G'⟩ := revealBeforeAll_frag H R G₁ G₂
+  rw [hy] at G
+  have := (frag_unique R (xlSound_build a) G G').2
+  rw [this]; grind
+
+/-- **Both sides, interleaved in any order** (the complete protocol of `lm/partial_test.cc`: `steps` says which side
+reveals next; afterwards the `after.full` and `reveal_full` calls): once both sides are completely revealed, the left
+pointers are those of `B ++ M ++ A` beyond `B`'s and the accumulated adjustments make up its canonical score. -/
+theorem reveal_both (a : Arpa) (T : Table) (H : Hyp a T) (R : Ptr → Rat)
+    (B : List Word) (Lb : Nat) (cB : Chart) (pB : Rat) (GB : FragC a T R B Lb cB pB)
+    (M : List Word) (Lm : Nat) (cM : Chart) (pM : Rat) (GM : FragC a T R M Lm cM pM)
+    (A : List Word) (La : Nat) (cA : Chart) (pA : Rat) (GA : FragC a T R A La cA pA) (steps : List Bool)
+    (hall : (revealSteps T R cB cA steps (0, 0, cM.left, cM.right, 0)).1 = cB.right.length ∧
+            (revealSteps T R cB cA steps (0, 0, cM.left, cM.right, 0)).2.1 = cA.left.length) :
+    ∃ L' c', c'.left.pointers = cB.left.pointers ++ (revealBoth T R cB cM cA steps).1.pointers ∧
+      FragC a T R (B ++ (M ++ A)) L' c' (pB + (pM + pA) + (revealBoth T R cB cM cA steps).2.2) :=
+  revealBoth_frag H R GB GM GA steps hall
+
+/-- … so that **revealing context incrementally on either side of a fragment, in any order, accumulates exactly the
+difference between the whole and its parts** — for all derivations of the three parts and of the whole -/
+theorem reveal_both_whole_minus_parts (a : Arpa) (wf : WellFormed a) (hp : ContextsOnlyBackoff a) (R : Ptr → Rat)
+    (r₁ r₂ r₃ r : Rule) (hy : r.yield = r₁.yield ++ (r₂.yield ++ r₃.yield)) (hv : ValidWords a r.yield) (steps : List Bool)
+    (hall : (revealSteps (build a) R (ruleScore (build a) R none r₁).1 (ruleScore (build a) R none r₃).1 steps
+              (0, 0, (ruleScore (build a) R none r₂).1.left, (ruleScore (build a) R none r₂).1.right, 0)).1 =
+              (ruleScore (build a) R none r₁).1.right.length ∧
+            (revealSteps (build a) R (ruleScore (build a) R none r₁).1 (ruleScore (build a) R none r₃).1 steps
+              (0, 0, (ruleScore (build a) R none r₂).1.left, (ruleScore (build a) R none r₂).1.right, 0)).2.1 =
+              (ruleScore (build a) R none r₃).1.left.length) :
+    (revealBoth (build a) R (ruleScore (build a) R none r₁).1 (ruleScore (build a) R none r₂).1
+        (ruleScore (build a) R none r₃).1 steps).2.2 =
+      (ruleScore (build a) R none r).2 - (ruleScore (build a) R none r₁).2 - (ruleScore (build a) R none r₂).2 -
+        (ruleScore (build a) R none r₃).2 := by
+  have H := hyp_build a wf hp
+  rw [hy] at hv
+  obtain ⟨L₁, G₁⟩ := derivation_frag a (build a) H R r₁ (ValidWords.append_left hv)
+  obtain ⟨L₂, G₂⟩ := derivation_frag a (build a) H R r₂ (ValidWords.append_left (ValidWords.append_right hv))
+  obtain ⟨L₃, G₃⟩ := derivation_frag a (build a) H R r₃ (ValidWords.append_right (ValidWords.append_right hv))
+  obtain ⟨L, G⟩ := derivation_frag a (build a) H R r (by rw [hy]; exact hv)
+  obtain ⟨L', c', _, G'⟩ := revealBoth_frag H R G₁ G₂ G₃ steps hall
   rw [hy] at G
   have := (frag_unique R (xlSound_build a) G G').2
   rw [this]; grind
